@@ -1260,13 +1260,15 @@ func (g *verifC28Gen) mutate(st *transactions.SignedTxn, s *verifC28Slot, n int)
 			case 2:
 				p.Signature = nil
 			case 3:
-				sg := append([]byte{}, p.Signature...)
-				sg[r.Intn(len(sg))] ^= 1 << uint(r.Intn(8))
-				p.Signature = sg
+				if sg := append([]byte{}, p.Signature...); len(sg) > 0 {
+					sg[r.Intn(len(sg))] ^= 1 << uint(r.Intn(8))
+					p.Signature = sg
+				}
 			case 4:
-				pk := append([]byte{}, p.PublicKey...)
-				pk[r.Intn(len(pk))] ^= 1 << uint(r.Intn(8))
-				p.PublicKey = pk
+				if pk := append([]byte{}, p.PublicKey...); len(pk) > 0 {
+					pk[r.Intn(len(pk))] ^= 1 << uint(r.Intn(8))
+					p.PublicKey = pk
+				}
 			case 5:
 				p.PublicKey = nil
 			default:
